@@ -150,3 +150,73 @@ package trie
 //@   loop 0: invariant forall j int :: 0 <= j && j < i && j < 17 ==> (istype(node.Children[j], *shortNode) ==> len(unbox(node.Children[j], *shortNode).flags.hash) == 0) && (istype(node.Children[j], *fullNode) ==> len(unbox(node.Children[j], *fullNode).flags.hash) == 0 && unbox(node.Children[j], *fullNode) != node)
 //@   ensures [child.full] istype(n, rawFullNode) ==> forall j int :: 0 <= j && j < 17 ==> (istype(unbox(result, *fullNode).Children[j], *shortNode) ==> len(unbox(unbox(result, *fullNode).Children[j], *shortNode).flags.hash) == 0) && (istype(unbox(result, *fullNode).Children[j], *fullNode) ==> len(unbox(unbox(result, *fullNode).Children[j], *fullNode).flags.hash) == 0)
 //@   modifies nothing
+
+// ---------------------------------------------------------------------------------------------
+// Committing the node cache to disk (C03, ordering part): commit puts a node into the write batch only after
+// every child that is still in the memory cache has been put (children first). written(b,h): node h is in the
+// batch b or already in its target store; closed: every cached node that is written has all its cached
+// children written. commit keeps the written set closed at every recursive call and at exit - the batch is
+// flushed in put order, so whatever prefix of the puts has reached the disk when the process dies is closed
+// under "child of": a root whose top node is on disk is resolvable. nodeChild(n,c): c is a child hash of cached
+// node n (what childs() collects, trusted). Assumed: batches are applied in order and atomically (LevelDB),
+// children that are not in the memory cache were committed earlier.
+//@ spec abstract fn nodeChild(n Int, c Bytes) bool
+//@ spec abstract fn childIdx(n Int, c Bytes) int
+//@ spec macro fn written(b Int, h Bytes) bool = @select(@select(ghost(bpend), b), h) || @select(@select(ghost(kvhas), @select(ghost(btarget), b)), h)
+//@ spec macro fn closedUnder(db *NodeDatabase, b Int) bool = forall h common.Hash :: has(db.nodes, h) && written(b, bytes(h)) ==> (forall c common.Hash :: nodeChild(ref(db.nodes[h]), bytes(c)) && has(db.nodes, c) ==> written(b, bytes(c)))
+
+//@ func cachedNode.childs
+//@   option trusted
+//@   requires n != nil
+//@   ensures fresh(result)
+//@   ensures forall i int :: 0 <= i && i < len(result) ==> nodeChild(ref(n), bytes(result[i]))
+//@   ensures forall c common.Hash :: nodeChild(ref(n), bytes(c)) ==> 0 <= childIdx(ref(n), bytes(c)) && childIdx(ref(n), bytes(c)) < len(result) && result[childIdx(ref(n), bytes(c))] == c
+//@   modifies nothing
+
+//@ func cachedNode.rlp
+//@   option trusted
+//@   modifies nothing
+
+//@ func NodeDatabase.commit
+//@   property C03
+//@   requires db != nil && typeid(batch) != 0
+//@   requires [wf]     forall h common.Hash :: has(db.nodes, h) ==> db.nodes[h] != nil
+//@   # modelling fact: a [32]byte value is determined by its 32 bytes (SMT arrays are total maps)
+//@   requires [repr!init] forall h common.Hash :: bytes(h) == bytes(hash) ==> h == hash
+//@   requires [closed] closedUnder(db, ref(batch))
+//@   loop 0: invariant closedUnder(db, ref(batch))
+//@   loop 0: invariant forall j int :: 0 <= j && j <= rangeidx() && j < len(rangeslice()) ==> (has(db.nodes, rangeslice()[j]) ==> written(ref(batch), bytes(rangeslice()[j])))
+//@   loop 0: invariant forall k Bytes :: old(written(ref(batch), k)) ==> written(ref(batch), k)
+//@   ensures [closed]  closedUnder(db, ref(batch))
+//@   ensures [written] result == nil && has(db.nodes, hash) ==> written(ref(batch), bytes(hash))
+//@   ensures [grows]   forall k Bytes :: old(written(ref(batch), k)) ==> written(ref(batch), k)
+//@   modifies ghost(bpend), ghost(bsize), ghost(kv), ghost(kvhas)
+
+// Commit (the public entry): a fresh batch on the disk store, the preimages, then commit of the root, then the
+// final Write; only after that the flushed nodes are dropped from the memory cache. When Commit reports success
+// the root's top node is on disk; uncache is only reached with the disk store closed under "child of".
+//@ spec macro fn closedOnDisk(db *NodeDatabase) bool = forall h common.Hash :: has(db.nodes, h) && @select(@select(ghost(kvhas), ref(db.diskdb)), bytes(h)) ==> (forall c common.Hash :: nodeChild(ref(db.nodes[h]), bytes(c)) && has(db.nodes, c) ==> @select(@select(ghost(kvhas), ref(db.diskdb)), bytes(c)))
+
+//@ func NodeDatabase.secureKey
+//@   option trusted
+//@   requires db != nil
+//@   # a preimage key (prefix + hash, 43 bytes) is never a node key (32 bytes)
+//@   ensures forall h common.Hash :: bytes(result) != bytes(h)
+//@   modifies db.seckeybuf
+
+//@ func NodeDatabase.uncache
+//@   option trusted
+//@   requires db != nil
+//@   requires [durable] has(db.nodes, hash) ==> @select(@select(ghost(kvhas), ref(db.diskdb)), bytes(hash))
+//@   requires [closed]  closedOnDisk(db)
+//@   modifies entries(db.nodes), db.oldest, db.newest, db.nodesSize, heap("storage/trie.cachedNode")
+
+//@ func NodeDatabase.Commit
+//@   property C03
+//@   requires db != nil && typeid(db.diskdb) != 0 && ref(db.diskdb) != 0
+//@   requires [wf]     forall h common.Hash :: has(db.nodes, h) ==> db.nodes[h] != nil
+//@   requires [repr!init] forall h common.Hash :: bytes(h) == bytes(node) ==> h == node
+//@   requires [diskclosed] closedOnDisk(db)
+//@   loop 0: invariant typeid(batch) != 0 && @select(ghost(btarget), ref(batch)) == ref(db.diskdb) && closedUnder(db, ref(batch)) && ref(db.diskdb) == old(ref(db.diskdb)) && typeid(db.diskdb) != 0
+//@   loop 0: invariant forall h common.Hash :: has(db.nodes, h) ==> db.nodes[h] != nil
+//@   ensures [durable] result == nil && old(has(db.nodes, node)) ==> @select(@select(ghost(kvhas), ref(db.diskdb)), bytes(node))
